@@ -70,7 +70,7 @@ class Ctx:
             raise e
         fn = B.load_fn(self.index, *key)
         try:
-            it = I.analyse(fn, k.argspec(), k.argsize(), x86=self.x86)
+            it = I.analyse(fn, k.argspec(), k.argsize(), x86=self.x86, cut_loops=bool(getattr(k.cfg, 'peel', 0)))
         except I.Unsupported as e:
             self._cache[key] = e
             raise
